@@ -2,7 +2,7 @@
 # usage: tools/mut.sh <patch-file> [--tests] [--tier T] ID...
 # Applies a patch to /repo, optionally runs the repository's test-suite, runs the
 # named checks (each under a hard timeout), and ALWAYS reverts /repo afterwards.
-patch=$1; shift
+patch=$(readlink -f "$1"); shift
 tests=0; tier=quick
 while :; do case "$1" in --tests) tests=1; shift;; --tier) tier=$2; shift 2;; *) break;; esac; done
 cd /repo || exit 2
